@@ -167,6 +167,9 @@ func (r *AvPacket2RtmpRemuxer) FeedAvPacket(pkt base.AvPacket) {
 		pos := 5
 		maxLength := len(pkt.Payload) + pos + len(nals)
 		payload := make([]byte, maxLength)
+		// the frame is a key frame if any of its nal units is an IDR / IRAP slice, not only the last one
+		// (a key frame may end with filler data, end of sequence, a suffix SEI, ...)
+		isKeyFrame := false
 
 		for _, nal := range nals {
 			if pkt.PayloadType == base.AvPacketPtAvc {
@@ -211,6 +214,9 @@ func (r *AvPacket2RtmpRemuxer) FeedAvPacket(pkt base.AvPacket) {
 						//		payload = make([]byte, maxLength)
 						//	}
 						//}
+						isKeyFrame = true
+					}
+					if isKeyFrame {
 						payload[0] = base.RtmpAvcKeyFrame
 					} else {
 						payload[0] = base.RtmpAvcInterFrame
@@ -260,6 +266,9 @@ func (r *AvPacket2RtmpRemuxer) FeedAvPacket(pkt base.AvPacket) {
 						//		payload = make([]byte, maxLength)
 						//	}
 						//}
+						isKeyFrame = true
+					}
+					if isKeyFrame {
 						payload[0] = base.RtmpHevcKeyFrame
 					} else {
 						payload[0] = base.RtmpHevcInterFrame
